@@ -22,7 +22,69 @@ CN = {0: "Text", 1: "HTML", 2: "CSS", 3: "JS", 4: "JSON", 5: "Markdown", 6: "Tag
 # Findings demonstrated on the unchanged tree (each at the confinement level, see the report); the
 # integrator moves them into known-findings.json.  Patterns are sub-dict matches on the signature
 # computed by Trace_AEConfine; `root` is the breaking edge (class of the last agreeing boundary + fragment).
-PROPOSED_KNOWN = []
+def _k(what, **sig):
+    return {"kind": "known", "signature": dict(sig, fam="autoescape"), "what": what}
+
+
+def _root(**r):
+    return r
+
+
+END_SCRIPT = rig.s2b("</script>")
+END_SCRIPT_SP = rig.s2b("</script ")
+PROPOSED_KNOWN = [
+    # -- lexer design limitations named in DESIGN 9 #10 (root cause = what the two machines are in after the breaking edge)
+    _k("lexer.scan does not know JavaScript regular-expression literals: after `/` where a regex may start (also `</` in code) it stays in JS code, so quotes, `/` and `[` inside the literal desynchronise it and values shown there are written as quoted strings",
+       root=_root(to="js-regex")),
+    _k("lexer.scan does not know JavaScript template literals: inside `...` it stays in JS code (values are written as \"...\" strings that keep ` and ${) and quotes inside the literal desynchronise it",
+       root=_root(to="js-template")),
+    _k("lexer.scan does not know HTML comments: tags, attributes and <script> inside <!-- --> change its context, so after the comment values are escaped for the wrong context",
+       root=_root(to="comment")),
+    _k("lexer.scan skips <![CDATA[ ... ]]> as a CDATA section ({{ }} inside is not even lexed), but in HTML content it is a bogus comment that ends at the first `>`",
+       root=_root(toctx="inert")),
+    _k("lexer.scan does not know bogus comments (`<!x`, `<?`, `</` + non-letter): markup inside them changes its context",
+       root=_root(to="bogus-comment")),
+    _k("lexer.scan treats what follows `<` or `</` as a tag when the tokenizer does not (`</<script>`: bogus comment up to the `>` of the fragment)",
+       root=_root(slot="tag-open")),
+    _k("lexer.scan does not know RCDATA elements (title, textarea): markup inside them changes its context although it is text",
+       root=_root(to="rcdata")),
+    _k("lexer.scan does not know RAWTEXT elements (xmp, iframe, noembed, noframes): markup inside them changes its context although it is text",
+       root=_root(to="rawtext")),
+    _k("lexer.scan does not know <plaintext>: everything after it is text for the tokenizer",
+       root=_root(to="plaintext")),
+    _k("showInTag keeps spaces (and `<`): a value shown in the tag context (attribute name / tag name position) splits into several attributes",
+       root="none", ctx="Tag"),
+    _k("a value shown right after `<` in HTML text is only HTML-escaped: it becomes a tag name, or markup declaration / end tag / text depending on its first byte",
+       root="none", ctx="HTML", slot="tag-open"),
+    # -- DESIGN 9 #11: the {{ render }} fast path
+    _k("{{ render \"file\" }} is emitted by the fast path of emitter_statements.go (case *ast.Show) without looking at the context of the show statement: the partial's output (raw for .txt, HTML-escaped for .html) is written unescaped into attributes, tags, scripts and strings",
+       via="render"),
+    _k("{{ render \"file.txt\" }} inside HTML: the fast path ignores the format, the text partial's output is written raw",
+       via="rendertxt"),
+    # -- further root causes found by the product exploration
+    _k("JS string lexing: backslash-backslash is not an escape for lexer.scan (it only looks for backslash + quote), so in \"a\\\\\" the closing quote is taken as escaped and the lexer stays in the string (proposed fix: treat backslash + backslash like backslash + quote)",
+       root=_root(ctx="JSString", toctx="JSString", to="js-code")),
+    _k("JSON string lexing: backslash-backslash is not an escape for lexer.scan (see the JS string finding)",
+       root=_root(ctx="JSONString", toctx="JSONString", to="json-value")),
+    _k("CSS string lexing: backslash-backslash is not an escape for lexer.scan, and a raw newline does not end the string (bad-string) as it does in CSS",
+       root=_root(ctx="CSSString", toctx="CSSString", to="css-code")),
+    _k("lexer.scan does not know the HTML-like comments of JavaScript (`<!--`, and `-->` at the start of a line): quotes inside them open strings, comment markers inside them are honoured",
+       root=_root(slot="js-comment-line")),
+    _k("lexer.scan and the JS lexical grammar disagree on where a block comment is (consequence of HTML-like comments, or of `/*` after a `/` that started a regex)",
+       root=_root(slot="js-comment-block")),
+    _k("script data double escaped state: after `<!--<script` inside a script element `</script>` does not end the element for the tokenizer; lexer.scan leaves the JS context",
+       root=_root(toctx="HTML", frag=END_SCRIPT)),
+    _k("script data double escaped state (`</script` followed by a space)",
+       root=_root(toctx="HTML", frag=END_SCRIPT_SP)),
+    _k("lexer.scan ignores end tags: quotes in attributes of an end tag (`</x a='`) and `</script ` + attributes are text for it",
+       root=_root(slot="end-tag")),
+    _k("scanAttribute rejects a quote or `=` as first byte of an attribute name and skips it; the tokenizer starts an attribute there (`<a \"\"=v`)",
+       root=_root(ctx="Tag", slot="attr-name", toctx="Tag", to="attr-unq")),
+    _k("a value shown inside a JavaScript block comment is written as a quoted string that keeps `*/`",
+       root="none", ctx="JS", slot="js-comment-block"),
+    _k("an empty value shown as a whole unquoted attribute value leaves `name=` followed by the next attribute, which becomes its value",
+       root="none", ctx="UnquotedAttr", vclass="empty"),
+]
 
 
 def text(frags):
@@ -215,12 +277,20 @@ def holes_of(docs, info, frags):
 
 
 def select(ctx, holes, per_key):
-    """at least one hole per (context, url, slot, kind, root cause): at the end of a document and in front of a suffix"""
-    chosen, count = [], collections.Counter()
+    """for every (context, url, slot, kind, root cause) class: holes at the end of a document and holes in
+       front of a suffix, the latter with as many different next fragments as possible"""
+    chosen, count, nexts = [], collections.Counter(), set()
     for h in sorted(holes, key=lambda h: (len(h["frags"]), h["hole"])):
         k = h["key"] + (h["end"],)
-        if count[k] >= per_key:
+        nk = None
+        if not h["end"]:
+            nk = h["key"] + (tuple(h["frags"][h["hole"]]),)
+            if nk in nexts:
+                continue
+        if count[k] >= (per_key if h["end"] else per_key * ctx.pick(2, 8)):
             continue
+        if nk:
+            nexts.add(nk)
         count[k] += 1
         chosen.append(h)
     return chosen
